@@ -396,7 +396,7 @@ def inst_through_expand(ndim_in, axes):
         n_out = ndim_in + len(axes)
         chunks = tuple((1,) if i in axes else (E.int(f"c{i}a", 1), E.int(f"c{i}b", 1)) for i in range(n_out))
         ex = Fake(array=Fake(_name="y"), axes=axes)
-        me = Fake(array=ex, chunks=chunks, threshold=None, block_size_limit=None, method=None)
+        me = Fake(array=ex, chunks=chunks, threshold=None, block_size_limit=None, method=None, balance=False)
         res = w.method(Rm.Rechunk, "_pushdown_through_expand_dims")(me)
         inner, ax = res.a
         want = tuple(c for i, c in enumerate(chunks) if i not in axes)
@@ -439,6 +439,11 @@ def inst_balance(kind):
             x = catalog.source(w, E, "x", (5, 2), chunks=[(2, 2, 2, 2, 1), (1, 1)])
             p = catalog.p_transpose(w, x, (1, 0))
             spec, shape, legacy_chunks = (2, 4), (2, 9), ((1, 1), (2, 2, 2, 2, 1))
+        elif kind == "expand_dims":
+            # ten elements by three: the balanced target (4, 4, 2) is not a fixed point of balancing (again: (5, 5))
+            x = catalog.source(w, E, "x", (5,), chunks=[(2, 2, 2, 2, 2)])
+            p = catalog.p_expand(w, x, (0,))
+            spec, shape, legacy_chunks = (1, 3), (1, 10), ((1,), (2, 2, 2, 2, 2))
         else:
             x = catalog.source(w, E, "x", (5,), chunks=[(2, 2, 2, 2, 1)])
             p = (catalog.p_elemwise(w, operator.mul, x, 1.0) if kind == "elemwise" else
@@ -471,7 +476,10 @@ def inst_balance(kind):
             warnings.simplefilter("ignore")
             a = np.arange(18).reshape(9, 2) if kind == "transpose" else np.arange(9)
             x = da.from_array(a, chunks=(2, 1) if kind == "transpose" else 2)
-            if kind == "transpose":
+            if kind == "expand_dims":
+                x = da.from_array(np.arange(10), chunks=2)
+                y = da.expand_dims(x, 0).rechunk((1, 3), balance=True)
+            elif kind == "transpose":
                 y = x.T.rechunk((2, 4), balance=True)
             elif kind == "rechunk-rechunk":
                 y = x.map_blocks(lambda b: b + 1, dtype=a.dtype).rechunk(4, balance=True).rechunk(4)
@@ -603,7 +611,7 @@ def instances(tier):
         out.append(inst_through_expand(nd, axes))
     for mo, mn in ((1, 2), (2, 2), (3, 1)):
         out.append(inst_validate(mo, mn))
-    for k in ("plain", "elemwise", "transpose", "rechunk-rechunk"):
+    for k in ("plain", "elemwise", "transpose", "expand_dims", "rechunk-rechunk"):
         out.append(inst_balance(k))
     for k in ("auto1", "int", "minus1", "tuple", "flat1d", "dict-none") + (() if q else ("dict-auto",)):
         out.append(inst_rechunk_spec(k))
